@@ -859,6 +859,9 @@ impl RustCodeGenerator {
                 out.push(c);
             }
         }
+        if out == "Self" {
+            out.push('_');
+        }
         out
     }
 
